@@ -82,6 +82,13 @@ class Registry:
         if nm == "asyncio.gather":
             self.awaited.append(list(args))
             return [None for _ in args]
+        if nm == "asyncio.wait":
+            # a suspension point whatever its timeout: other tasks run (and may register tasks) before it returns the
+            # partition of the tasks it was GIVEN
+            given = list(args[0]) if args else []
+            self._suspended()
+            done = {t for t in given if isinstance(t, Obj) and t.attrs.get("_done")}
+            return (done, {t for t in given if t not in done})
         if nm == "asyncio.get_running_loop" or nm.startswith("asyncio.") and nm not in ("asyncio.CancelledError",):
             return Opaque(nm)
         f = getattr(node, "func", None)
@@ -89,8 +96,18 @@ class Registry:
             self.sleeps += 1
             if self.sleeps > 1:
                 raise PyRaise("asyncio.CancelledError", node)
+            self._suspended()
             return None
         return NotImplemented
+
+    def _suspended(self):
+        """the interpreted coroutine is suspended: what the scenario says happens meanwhile"""
+        cb, self.on_suspend = getattr(self, "on_suspend", None), None
+        if cb is not None:
+            try:
+                cb()
+            finally:
+                self.on_suspend = cb
 
     # -- driving the registry ----------------------------------------------------------------------------
     def fresh(self):
@@ -217,4 +234,21 @@ def check_registry(ctx, repo, rule, pump_key=None, only=None):
         ctx.ob(rule, "tidy::forgets-exactly-done-tasks", ok,
                f"after one tidy pass the registry still holds live={any(live is x for x in flat)} done={any(dead is x for x in flat)} (expected live kept, done dropped)",
                repo.method(TM, "_tidy").loc)
+        # ... and loses nothing registered while the pass is suspended (the pass reads the list, may yield, and rebinds
+        # it: a task added in between must still be there - else nothing ever cancels or awaits it)
+        R.fresh()
+        live, dead = R.add("live", ks[0]), R.add("dead", ks[0])
+        dead.attrs["_done"] = True
+        late = []
+        R.on_suspend = lambda: late.append(R.add(f"late{len(late)}", ks[-1]))
+        R.tidy_once()
+        R.on_suspend = None
+        R.awaited = []
+        R.gather()
+        flat = [t for grp in R.awaited for t in grp]
+        lost = [t.attrs["_name"] for t in late if not any(t is x for x in flat)]
+        ctx.ob(rule, "tidy::keeps-tasks-registered-during-the-pass", bool(late) and not lost and any(live is x for x in flat),
+               f"{len(late)} task(s) registered while the tidy pass was suspended (one at each of its suspension points): {lost or 'none'} missing from the registry afterwards - a task the registry forgets "
+               f"is never cancelled by its domain's cancel nor awaited on exit (the consumers and loops of an abandoned connection live on)", repo.method(TM, "_tidy").loc,
+               sample={"rule": rule, "registered_during_pass": len(late), "lost": lost})
     return ks
